@@ -207,6 +207,10 @@ def parseRealPlain (radix : Nat) (s : Text) : Option RealLit :=
     else if isRustFloat s then some (.flo s) else none
   else match sc.frac with
     | some p =>
+      -- the sign belongs to the numerator: a signed denominator (reachable through the separately
+      -- parsed sides of a polar literal, `1@1/-2`) is rejected
+      if (s.drop (p + 1)).head? == some '+' || (s.drop (p + 1)).head? == some '-' then none
+      else
       match parseIntRadix radix (s.take p), parseIntRadix radix (s.drop (p + 1)) with
       | some n, some d => some (.rat n d)
       | _, _ => none
